@@ -93,8 +93,15 @@ pub fn exec(case: &Value) -> Value {
                     pix.extend(buf[[ox + x, oy + y]].0);
                 }
             }
+            // vk: how the sub-view is borrowed - 0 immutably, 1 mutably (slice_mut), 2 as a slice of a slice
+            let vk = case.get("vk").and_then(|v| v.as_i64()).unwrap_or(0);
+            let mut buf = buf;
             let wres = if owned {
                 guard(|| write_ppm(&mut bytes, &buf))
+            } else if vk == 1 {
+                guard(|| write_ppm(&mut bytes, buf.slice_mut((ox..ox + w, oy..oy + h))))
+            } else if vk == 2 {
+                guard(|| write_ppm(&mut bytes, buf.slice((ox.., oy..)).slice((0..w, 0..h))))
             } else {
                 guard(|| write_ppm(&mut bytes, buf.slice((ox..ox + w, oy..oy + h))))
             };
@@ -248,8 +255,11 @@ pub fn gen(args: &Args, out: &mut dyn Write) {
                     let (ox, oy) = (rng.range(0, 3) as u32, rng.range(0, 2) as u32);
                     (w + ox + rng.range(0, 3) as u32, h + oy + rng.range(0, 2) as u32, ox, oy)
                 };
+                // (every 9th owned image has no rows: a w x 0 image is an image too)
+                let h = if owned && i % 72 == 0 { 0 } else { h };
+                let bh = if h == 0 { 0 } else { bh };
                 emit(out, json!({"op": "rt", "bw": bw, "bh": bh, "ox": ox, "oy": oy, "w": w, "h": h,
-                                 "owned": owned as u8, "pseed": rng.below(1 << 30)}));
+                                 "owned": owned as u8, "pseed": rng.below(1 << 30), "vk": (i / 8) % 3}));
             }
             1..=4 => {
                 // the same pixel data in a text and a binary format, any spelling
